@@ -53,6 +53,8 @@ type HStep struct {
 	Data  bool        `json:"data,omitempty"`
 	Unit  ref.FeeUnit `json:"unit,omitempty"`
 	Tag   int         `json:"tag,omitempty"` // quote: FeeType field of the registered fee object (ref.FeeTag*)
+	Via   string      `json:"via,omitempty"`   // quote: the exported way the quote object is changed (ref.FeeQuoteEdit.Via)
+	Unit2 ref.FeeUnit `json:"unit2,omitempty"` // quote via unmarshal: new rate of the other type
 	Utxos []HU        `json:"utxos,omitempty"`
 	Rel   string      `json:"rel,omitempty"` // what the generator aimed at (informational)
 }
@@ -89,7 +91,7 @@ func hStepValid(st HStep) string {
 			return "malformed input"
 		}
 	case "quote":
-		if st.Unit.Bytes < 1 || st.Unit.Sat < 0 || st.Unit.Sat > 1000000 || st.Unit.Bytes > 1000000 {
+		if !ref.FeeQuoteEditOK(hEdit(st)) {
 			return "quote outside domain"
 		}
 	case "fund":
@@ -103,6 +105,10 @@ func hStepValid(st HStep) string {
 		}
 	}
 	return ""
+}
+
+func hEdit(st HStep) ref.FeeQuoteEdit {
+	return ref.FeeQuoteEdit{Via: st.Via, Data: st.Data, Unit: st.Unit, Unit2: st.Unit2, Tag: st.Tag}
 }
 
 func hCase(st HStep, q ref.FeeQuote) Case {
@@ -214,11 +220,7 @@ func hModelStep(m *ref.Tx, q *ref.FeeQuote, st HStep) (applied bool) {
 		}
 		m.Out = m.Out[:st.N:st.N]
 	case "quote":
-		if st.Data {
-			q.Data = st.Unit
-		} else {
-			q.Std = st.Unit
-		}
+		ref.FeeQuoteEditModel(q, hEdit(st))
 	case "fund":
 		for _, u := range st.Utxos {
 			if hDeficit(*m, *q).Sign() == 0 {
@@ -256,7 +258,8 @@ func hModelStep(m *ref.Tx, q *ref.FeeQuote, st HStep) (applied bool) {
 }
 
 // hLibStep performs an edit step on the library objects, in place.
-func hLibStep(tx *bt.Tx, fq *bt.FeeQuote, q ref.FeeQuote, m ref.Tx, st HStep) error {
+func hLibStep(tx *bt.Tx, lq *ref.FeeQuoteLib, qBefore ref.FeeQuote, m ref.Tx, st HStep) error {
+	fq := lq.Q
 	nin, nout := len(tx.Inputs), len(tx.Outputs)
 	switch st.Kind {
 	case "query": // answers are C11's business; here they only give the library a chance to remember something
@@ -318,10 +321,8 @@ func hLibStep(tx *bt.Tx, fq *bt.FeeQuote, q ref.FeeQuote, m ref.Tx, st HStep) er
 	case "truncout":
 		tx.Outputs = tx.Outputs[:st.N]
 	case "quote":
-		if st.Data {
-			fq.AddQuote(bt.FeeTypeData, ref.FeeLibFee(bt.FeeTypeData, st.Unit, q.DataRelay, st.Tag))
-		} else {
-			fq.AddQuote(bt.FeeTypeStandard, ref.FeeLibFee(bt.FeeTypeStandard, st.Unit, q.StdRelay, st.Tag))
+		if err := lq.Apply(&qBefore, hEdit(st)); err != nil {
+			return fmt.Errorf("updating the quote object (%s): %v", st.Via, err)
 		}
 	}
 	return nil
@@ -380,7 +381,12 @@ func checkHistory(ctx *pbt.Ctx, c HistCase) error {
 	if err != nil {
 		return fmt.Errorf("harness: %v", err)
 	}
-	fq := ref.FeeQuoteToLibTagged(q)
+	lq, err := ref.FeeQuoteBuild(q)
+	if err != nil {
+		return fmt.Errorf("building the quote object: %v", err)
+	}
+	fq := lq.Q
+	ctx.After(lq.Unmodified)
 	ctx.Labelf("steps=%d", len(c.Steps))
 	nChange, nAdded := 0, 0
 	prevKind := "start"
@@ -459,11 +465,12 @@ func checkHistory(ctx *pbt.Ctx, c HistCase) error {
 			tx = tx.Clone() // never the fatal shape: the transaction has at least one input
 			m = hCopyModel(ref.FromLib(tx))
 		default:
+			qBefore := q
 			if !hModelStep(&m, &q, st) {
 				ctx.Label("step-skipped")
 				continue
 			}
-			if err := hLibStep(tx, fq, q, m, st); err != nil {
+			if err := hLibStep(tx, lq, qBefore, m, st); err != nil {
 				return err
 			}
 			switch st.Kind {
@@ -473,6 +480,7 @@ func checkHistory(ctx *pbt.Ctx, c HistCase) error {
 				sawQuery = true
 			case "quote":
 				sawQuote = true
+				ctx.Label("quote-step:via=" + hEdit(st).Via)
 				if st.Tag == ref.FeeTagOther {
 					ctx.Label("quote-step:fee-type-field=other-type")
 				} else if st.Tag == ref.FeeTagEmpty {
@@ -625,6 +633,8 @@ func genHEdit(t *rapid.T, m ref.Tx) HStep {
 		st.Data = rapid.Bool().Draw(t, "data")
 		st.Unit = genUnit(t, "unit")
 		st.Tag = genFeeTag(t, "tag")
+		st.Via = genQuoteVia(t, "via")
+		st.Unit2 = genUnit(t, "unit2")
 	case "fund":
 		n := rapid.IntRange(0, 3).Draw(t, "nutxo")
 		for i := 0; i < n; i++ {
